@@ -557,13 +557,26 @@ func TestHistoriesOnParsedModules(t *testing.T) {
 			}
 		}
 	}
+	// hand-written bases for shapes that the other sources produce rarely: the text of one function
+	// depends on the numbering of another (blockaddress of a numbered block), with and without globals
+	catalogue := []string{
+		"define i8* @a() {\n  ret i8* blockaddress(@g, %3)\n}\ndefine i32 @g(i32) {\n  %2 = add i32 %0, 1\n  br label %3\n3:\n  %4 = mul i32 %2, 2\n  ret i32 %4\n}\n",
+		"@t = global [2 x i8*] [i8* blockaddress(@g, %3), i8* blockaddress(@g, %5)]\ndefine i32 @g(i32) {\n  %2 = add i32 %0, 1\n  br label %3\n3:\n  %4 = mul i32 %2, 2\n  br label %5\n5:\n  ret i32 %4\n}\ndefine i8* @a() {\n  ret i8* blockaddress(@g, %5)\n}\n",
+		"define i32 @g(i32, i32) {\n  %3 = icmp slt i32 %0, %1\n  br i1 %3, label %4, label %6\n4:\n  %5 = add i32 %0, %1\n  br label %6\n6:\n  %7 = phi i32 [ %5, %4 ], [ 0, %2 ]\n  ret i32 %7\n}\ndefine i8* @b() {\n  %1 = select i1 true, i8* blockaddress(@g, %4), i8* blockaddress(@g, %6)\n  ret i8* %1\n}\n",
+	}
 	hx.Check(t, test, hx.N(120, 4000), func(rt *rapid.T) {
 		var base string
-		if len(bases) > 0 && rapid.IntRange(0, 2).Draw(rt, "basekind") != 0 {
+		if rapid.IntRange(0, 4).Draw(rt, "catalogue") == 0 {
+			base = catalogue[rapid.IntRange(0, len(catalogue)-1).Draw(rt, "catbase")]
+		} else if len(bases) > 0 && rapid.IntRange(0, 2).Draw(rt, "basekind") != 0 {
 			base = bases[rapid.IntRange(0, len(bases)-1).Draw(rt, "base")]
 		} else {
 			cfg := gen.DefaultCfg()
 			cfg.UnnamedBias = 6
+			cfg.CrossBAUnnamed = true
+			if rapid.IntRange(0, 1).Draw(rt, "noglobals") == 0 {
+				cfg.MaxGlobals = 0
+			}
 			cfg.Off = map[string]bool{"retattr-align": true, "freeze-metadata": true}
 			m, _ := gen.Module(rt, cfg)
 			base = m.Text()
